@@ -694,3 +694,14 @@ M("c03-benign-guard-helper", "C03", [(PRE, """        if not isinstance(n, int) 
             raise _ex.InvalidArgumentTypeException("Provided argument \\"n\\" is not an integer.")
         if n == 0:
             return Pregex()""")], expect="silent")
+
+# ---------------------------------------------------------------- C06 pipeline
+M("c06-reader-findall-ranges-first", "C06", [(CLS, """        tokens = _re.findall(f"({range_pattern})|(\\\\\\\\?.)", classes, flags=_re.DOTALL)
+        return (set(rng for rng, _ in tokens if rng), set(c for _, c in tokens if c))""", """        ranges = set(_re.findall(range_pattern, classes))
+        classes = _re.sub(pattern=range_pattern, repl="", string=classes)
+        return (ranges, set(_re.findall(r"\\\\?.", classes, flags=_re.DOTALL)))""")], rule="R-PIPELINE")
+M("c06-collapse-unanchored", "C06", [(CLS, 'simplified_pattern = _re.sub(r"\\A\\[([^\\\\]|\\\\.)\\]\\Z", lambda m:', 'simplified_pattern = _re.sub(r"\\[([^\\\\]|\\\\.)\\]", lambda m:')], rule="R-PIPELINE")
+M("c06-collapse-no-reescape", "C06", [(CLS, """lambda m: str(__class__._to_pregex(m.group(1))) \\
+            if len(m.group(1)) == 1 else m.group(1), simplified_pattern)""", """lambda m: m.group(1), simplified_pattern)""")], rule="R-PIPELINE")
+M("c06-shorthand-digit-always", "C06", [(CLS, "        elif classes.issuperset(digit_set):", "        elif classes.issuperset(digit_set) or '0-8' in classes:")], expect="silent")
+M("c06-chars-to-ranges-off-by-one", "C06", [(CLS, "                    if ord(start) == ord(c_j) + 1:\n                        chars[i] = c_j + end", "                    if ord(start) == ord(c_j) + 2:\n                        chars[i] = c_j + end")], rule="R-PIPELINE")
